@@ -177,7 +177,8 @@ fn start_ws_broker(stall_ms: u64) -> Option<WsBroker> {
                     let mut ws = match tungstenite::accept(stream) { Ok(w) => w, Err(_) => continue };
                     ws.get_mut().set_nonblocking(true).ok();
                     loop {
-                        { let s = st.lock().unwrap(); if s.stop { let _ = ws.close(None); return; } if s.close { let _ = ws.close(None); let _ = ws.flush(); break; } }
+                        { let s = st.lock().unwrap(); if s.stop { let _ = ws.close(None); return; } // the peer's close follows everything it has queued: the Close frame goes out right behind the last message
+                          if s.close && s.to_send.is_empty() { let _ = ws.close(None); let _ = ws.flush(); break; } }
                         let stall = { let mut s = st.lock().unwrap(); if s.connacked && s.to_send.is_empty() && !s.stalled && s.stall_ms > 0 { s.stalled = true; s.stall_ms } else { 0 } };
                         if stall > 0 { std::thread::sleep(Duration::from_millis(stall)); }
                         match ws.read() {
